@@ -192,6 +192,12 @@ def rule_pp(tk, F, defined=()):
     return out
 
 def rule_drop(tk, F, names):
+    tk2 = []; i = 0
+    while i < len(tk):          # C++11 attributes [[...]]
+        if tk[i] == '[' and tk[i + 1:i + 2] == ['[']:
+            e = match_close(tk, i, '[', ']'); F.hit('DROP'); i = e + 1; continue
+        tk2.append(tk[i]); i += 1
+    tk = tk2
     out = []
     for t in tk:
         if t in names: F.hit('DROP')
@@ -354,8 +360,7 @@ def rule_rewrites(tk, F, rewrites):
                 i = e; n += 1
             else:
                 out.append(tk[i]); i += 1
-        lo, hi = rw.get('min', 1), rw.get('max', rw.get('min', 1) if 'max' not in rw and 'min' in rw else 10**6)
-        if 'max' not in rw and 'min' not in rw: hi = 10**6
+        lo = rw.get('min', 1); hi = rw.get('max', 10**6)
         if not (lo <= n <= hi):
             raise Drift("rewrite rule %s fired %d times, expected [%d,%d]" % (rw['name'], n, lo, hi))
         F.hit('RW:' + rw['name'], n)
@@ -474,6 +479,63 @@ def rule_try(tk, F):
             out += [T('{', L)] + S2 + [T(x, L) for x in toks('%s : ; if ( g_exc ) { g_exc = 0 ;' % lab)] + H + [T('}', L), T('}', L)]
             F.hit('TRY'); i = k; continue
         out.append(t); i += 1
+    return out
+
+def rule_foreach(tk, F, size_of=None):
+    """FOREACH / UNTIL / LAMBDA0:
+         mp_for_each_until<L>([caps](auto x){ B })   ->  for (int x = 0; x != SIZE(L); ++x) { B' }   B': return true -> break, return false -> continue
+         mp_for_each<L>([caps](auto x){ B })         ->  for (int x = 0; x != SIZE(L); ++x) { B }
+       assumed contract of mp_for_each / the fold in mp_for_each_until: elements visited in list order, short-circuit on true.
+       size_of(Ltokens) -> token list for the element count (default: mp_size ( L ))"""
+    out = []; i = 0
+    while i < len(tk):
+        t = tk[i]
+        if t in ('mp_for_each_until', 'mp_for_each') and tk[i + 1:i + 2] == ['<']:
+            args, j = parse_targs(tk, i + 1)
+            if tk[j] != '(' or tk[j + 1] != '[': raise Drift("for_each without immediately passed lambda")
+            pe = match_close(tk, j, '(', ')')
+            ce = match_close(tk, j + 1, '[', ']')
+            if tk[ce + 1] != '(' : raise Drift("lambda without parameter list")
+            le = match_close(tk, ce + 1, '(', ')')
+            params = [x for x in tk[ce + 2:le] if x not in ('auto', 'const', '&')]
+            if len(params) != 1: raise Drift("for_each lambda must take one (auto) parameter")
+            x = params[0]
+            if tk[le + 1] != '{': raise Drift("lambda without body")
+            be = match_close(tk, le + 1)
+            if be + 1 != pe: raise Drift("for_each: unexpected tokens after lambda")
+            body = rule_foreach(tk[le + 2:be], F, size_of)
+            if t == 'mp_for_each_until':
+                b2 = []; k = 0
+                while k < len(body):
+                    if body[k] == 'return' and body[k + 1:k + 3] == ['true', ';']: b2.append(T('break', body[k].line)); k += 2; continue
+                    if body[k] == 'return' and body[k + 1:k + 3] == ['false', ';']: b2.append(T('continue', body[k].line)); k += 2; continue
+                    if body[k] == 'return': raise Drift("mp_for_each_until lambda: only `return true;`/`return false;` supported")
+                    b2.append(body[k]); k += 1
+                body = b2; F.hit('UNTIL')
+            else:
+                if any(b == 'return' for b in body): raise Drift("mp_for_each lambda with return")
+                F.hit('FOREACH')
+            L = t.line
+            L_tokens = [a for a in args[0] if a not in ('typename',)]
+            size = size_of(L_tokens) if size_of else [T('mp_size', L), T('(', L)] + L_tokens + [T(')', L)]
+            out += [T(s_, L) for s_ in ('for', '(', 'int', str(x), '=', '0', ';', str(x), '!=')] + size + [T(s_, L) for s_ in (';', '++', str(x), ')', '{')] + body + [T('}', L)]
+            i = pe + 1
+            if tk[i:i + 1] == [';']: i += 1
+            continue
+        out.append(t); i += 1
+    return out
+
+def rule_decltype(tk, F):
+    """using X = decltype(y);  ->  const type_t X = y;      using X = typename A::b;  -> const type_t X = A_b... (left to TVAR rewrites)"""
+    out = []; i = 0
+    while i < len(tk):
+        if tk[i] == 'using' and tk[i + 2:i + 5] == ['=', 'decltype', '('] :
+            e = match_close(tk, i + 4, '(', ')')
+            if tk[e + 1] != ';': raise Drift("using = decltype(...) not followed by ;")
+            L = tk[i].line
+            out += [T('const', L), T('type_t', L), tk[i + 1], T('=', L)] + tk[i + 5:e] + [T(';', L)]
+            F.hit('DECLTYPE'); i = e + 2; continue
+        out.append(tk[i]); i += 1
     return out
 
 # ------------------------------------------------------------------ emit
